@@ -28,7 +28,7 @@ extern "C" void* __wrap_malloc(size_t n)
     return nullptr;
   }
   (void)&__real_malloc;
-  return sim_aligned_alloc(n); // see sim/aligned_new.hpp
+  return sim_aligned_alloc_nothrow(n); // see sim/aligned_new.hpp (malloc is declared nothrow: report failure as NULL)
 }
 
 enum Kind
